@@ -434,10 +434,26 @@ func (w *World) resolveLoad(v ssa.Value) ssa.Value {
 			return v
 		}
 		al, _ := allocBase(u.X)
+		viaFreeVar := false
+		if al == nil {
+			// a variable of the enclosing function read inside a function literal
+			if fv, ok := rootAddr(u.X).(*ssa.FreeVar); ok {
+				if b, ok := w.binding(fv).(*ssa.Alloc); ok {
+					al, viaFreeVar = b, true
+				}
+			}
+		}
 		if al == nil || w.escapes(al) {
 			return v
 		}
 		ss := w.stores[w.locKey(u.X)]
+		if viaFreeVar {
+			if len(ss) != 1 {
+				return v
+			}
+			v = ss[0].Val
+			continue
+		}
 		if len(ss) != 1 || inLoopWith(ss[0], u) {
 			// several stores: the one that reaches this load, when it is unique and in the
 			// same block or a dominating one with no other store in between
